@@ -151,7 +151,9 @@ AppendVerdict(g, c, t, ttl, meta, hash, ok, id, f) ==
        \cup (IF id \in DOMAIN g.acc THEN {"C01"} ELSE {})
        \cup (IF f # [topic |-> t, ctx |-> c, ttl |-> IF t = XC THEN Forever ELSE ttl,
                      meta |-> meta, hash |-> hash]
-             THEN (IF t = XC /\ f.ttl # Forever THEN {"C07"} ELSE {"C01", "C12"}) ELSE {})
+             THEN (IF t = XC /\ f.ttl # Forever THEN {"C07"} ELSE {"C01", "C12"})
+                  \* (C10: the hash is that of the content given, and there is none without content)
+                  \cup (IF f.hash # hash THEN {"C10"} ELSE {}) ELSE {})
 
 (* C20 (C05 for NUL): an import is stored as is, or rejected whole when it cannot be stored consistently: *)
 (* NUL in the topic, or a different frame already present under the id (ids are unique)                 *)
